@@ -386,13 +386,28 @@ path "*" { capabilities = ["read", "update", "list"] }`
 			s.Must(s.ReqNS(ns1, s.Root, logical.UpdateOperation, "sys/policies/acl/wide", map[string]interface{}{"policy": pol}))
 			resp := s.Must(s.ReqNS(ns1, s.Root, logical.UpdateOperation, "auth/token/create", map[string]interface{}{"policies": []string{"wide"}, "ttl": "1h"}))
 			nsTok := resp.Auth.ClientToken
-			for _, target := range []string{"", "ns1/", "ns1/ns2/", "ns3/"} {
+			// siblings whose names merely share a string prefix with the token's namespace
+			for _, sib := range []string{"ns1x/", "ns1-b/", "ns11/"} {
+				s.mkNS(t, sib, false)
+				s.Must(s.ReqNS(s.nsByPath(t, sib), s.Root, logical.UpdateOperation, "sys/mounts/m", map[string]interface{}{"type": "rec"}))
+			}
+			// a second credential of ns1/: the namespace's own root token (what root
+			// generation for a namespace hands out): unrestricted inside ns1/, nothing outside
+			nsRoot, rerr := s.Core.VerifNamespaceRootToken(ns1)
+			if rerr != nil {
+				t.Fatalf("harness: namespace root token: %v", rerr)
+			}
+			for _, target := range []string{"", "ns1/", "ns1/ns2/", "ns3/", "ns1x/", "ns1-b/", "ns11/"} {
 				tns := s.nsByPath(t, target)
 				for _, path := range []string{"m/prog", "m/kv/x", "sys/mounts", "auth/token/lookup-self", "x/y/prog"} {
 					for _, op := range []logical.Operation{logical.ReadOperation, logical.UpdateOperation} {
+					for ci, nsTok := range []string{nsTok, nsRoot} {
 						count++
 						s.Rec.Reset()
 						r, e := s.ReqNS(tns, nsTok, op, path, map[string]interface{}{"ops": []interface{}{}, "value": "v"})
+						if ci == 1 && strings.HasPrefix(target, "ns1/") && path == "m/kv/x" && !OK(r, e) {
+							res.Violate("c12:namespace:namespace-root-token-refused-inside", fmt.Sprintf("root token of ns1/ refused in %q on %s %s: %s", target, op, path, ErrText(r, e)), nil)
+						}
 						res.Add("evaluations", 1)
 						inside := strings.HasPrefix(target, "ns1/")
 						if !inside {
@@ -403,7 +418,8 @@ path "*" { capabilities = ["read", "update", "list"] }`
 								res.Violate("c12:namespace:backend-invoked-outside-token-namespace", fmt.Sprintf("token of ns1/: backend in namespace %q invoked on %s %s", target, op, path), nil)
 							}
 						}
-						res.Distinct("nontrivial", fmt.Sprintf("N|%s|%s|%s|%v", target, path, op, OK(r, e)))
+						res.Distinct("nontrivial", fmt.Sprintf("N|%d|%s|%s|%s|%v", ci, target, path, op, OK(r, e)))
+					}
 					}
 				}
 			}
